@@ -489,7 +489,7 @@ func main() {
 			if len(cur) == seqLen {
 				return
 			}
-			for _, e := range []byte("SLCF") {
+			for _, e := range []byte("SLCFM") {
 				gen(append(cur, e))
 			}
 		}
@@ -516,8 +516,20 @@ func main() {
 				if _, err := other.Send(); err != nil {
 					ev.Fatal("send: %v", err)
 				}
-				cname := bkt.Names()[0]
+				// the silent instance published twice before it went silent: an older snapshot (event L merges that one)
+				// and its newest one (event M), which is what the stale-instance rule is about
+				oldName := bkt.Names()[0]
+				oldData, _ := bkt.Get(oldName)
+				time.Sleep(2 * time.Millisecond) // (names carry the real clock here: keep the two apart)
+				put(other, "kc2")
+				if _, err := other.Send(); err != nil {
+					ev.Fatal("send: %v", err)
+				}
+				cname := bkt.Names()[1]
 				cdata, _ := bkt.Get(cname)
+				if cname == oldName || !strings.Contains(cname, "__c__") {
+					ev.Fatal("harness: unexpected bucket %v", bkt.Names())
+				}
 				now := time.Now().Add(48 * time.Hour) // far beyond keep and stale intervals relative to the snapshot times
 				merged, republished := false, false
 				var last header.TxnID
@@ -553,6 +565,13 @@ func main() {
 							republished = true // judged by what is in the bucket, not by what SendOnce reports
 						}
 					case 'L':
+						// the older snapshot of c is merged (e.g. it had been downloaded before the newer one appeared)
+						if _, ok := bkt.Get(oldName); ok {
+							if id, changed, err := me.Load(oldName, oldData, last); err == nil && !changed {
+								last = id
+							}
+						}
+					case 'M':
 						if _, ok := bkt.Get(cname); ok {
 							id, changed, err := me.Load(cname, cdata, last)
 							if err == nil {
@@ -592,7 +611,7 @@ func main() {
 		}
 		p.States = int64(len(seqs))
 		p.Distinct = int64(len(outcomes))
-		p.Bound = fmt.Sprintf("native and shadow x all %d sequences of length<=%d over {SendOnce, SendOnce during a storage outage, LoadOnce of the silent instance's snapshot, cleaner run}, every step an hour apart (beyond keep and stale intervals)", len(seqs), seqLen)
+		p.Bound = fmt.Sprintf("native and shadow x all %d sequences of length<=%d over {SendOnce, SendOnce during a storage outage, LoadOnce of the silent instance's older snapshot, LoadOnce of its newest snapshot, cleaner run}, every step an hour apart (beyond keep and stale intervals)", len(seqs), seqLen)
 		p.Samples = []any{"S L C C : c's snapshot must survive (merged but not republished)", "L S C C : may be deleted"}
 		r.AddPart(p)
 	}
